@@ -626,6 +626,9 @@ func (vc *VC) execInstr(fr *Frame, b *ssa.BasicBlock, ins ssa.Instruction) {
 		vc.guardCheckMap(fr, x.Map, true)
 		vc.mapWrite(mi, ref, vc.val(fr, x.Key).L[0], vc.val(fr, x.Value).L, true)
 	case *ssa.Call:
+		if fr.isRoot && fr.fi != nil && len(fr.fi.C.Anchors) > 0 {
+			vc.checkAnchors(fr, b, x)
+		}
 		res := vc.call(fr, x.Common(), x, x.Pos())
 		fr.vals[x] = res
 	case *ssa.Defer:
@@ -1125,4 +1128,46 @@ func (vc *VC) rootReturn(fr *Frame, results []SV) {
 // of the parameters (and the current values of captured variables).
 func (vc *VC) clauseArgsEntry(fr *Frame) []SV {
 	return vc.clauseArgsFrame(fr)
+}
+
+func callName(c *ssa.CallCommon) string {
+	if c.IsInvoke() {
+		return c.Method.Name()
+	}
+	if sc := c.StaticCallee(); sc != nil {
+		return origin(sc).Name()
+	}
+	return ""
+}
+
+// checkAnchors evaluates `at call f#k assert` clauses placed before this call.
+func (vc *VC) checkAnchors(fr *Frame, b *ssa.BasicBlock, call *ssa.Call) {
+	name := callName(call.Common())
+	if name == "" {
+		return
+	}
+	var sites []*ssa.Call
+	for _, blk := range fr.fn.Blocks {
+		for _, ins := range blk.Instrs {
+			if c, ok := ins.(*ssa.Call); ok && callName(c.Common()) == name {
+				sites = append(sites, c)
+			}
+		}
+	}
+	sort.Slice(sites, func(i, j int) bool { return sites[i].Pos() < sites[j].Pos() })
+	for _, a := range fr.fi.C.Anchors {
+		if a.Callee != name || a.Ord < 1 || a.Ord > len(sites) || sites[a.Ord-1] != call {
+			continue
+		}
+		args := vc.clauseArgsFrame(fr)
+		for _, n := range a.C.Locals {
+			args = append(args, vc.valueAt(fr, b, call, n, nil))
+		}
+		g := vc.evalClause(a.C.GoName, fr.fi.C.Pkg, args, vc.st, vc.entry)
+		tag := ""
+		if len(a.C.Tags) > 0 {
+			tag = "[" + strings.Join(a.C.Tags, ",") + "]"
+		}
+		vc.oblige("assert"+tag+":"+clauseLabel(a.C, 0), a.C.Tags, g)
+	}
 }
